@@ -58,7 +58,7 @@ Theorem step_frame : forall w o d,
 Proof.
   intros w o d L N.
   destruct o as [ |c p u|c u|c x|t x|c k i attrs|c f i args other|[c i] attrs|[c i] s e|[c i] v
-                 |c r|c o|t src x order|t|t|c|c x|c cls|a b|a b| ];
+                 |c r|c o|t src x order|t|t|c|c x|c cls|a b|a b|t|jt| ];
     cbn [step target cref_doc] in *; unfold with_cont; cbn [fst snd wdocs].
   all: frame_step.
 Qed.
@@ -90,14 +90,14 @@ Theorem step_length : forall w o, length (wdocs w) <= length (wdocs (fst (step w
 Proof.
   intros w o.
   destruct o as [ |c p u|c u|c x|t x|c k i attrs|c f i args other|[c i] attrs|[c i] s e|[c i] v
-                 |c r|c o|t src x order|t|t|c|c x|c cls|a b|a b| ];
+                 |c r|c o|t src x order|t|t|c|c x|c cls|a b|a b|t|jt| ];
     cbn [step]; unfold with_cont; cbn [fst snd wdocs].
   all: length_step.
 Qed.
 
 (* ------------------------------------------------------------------ C18: coherence of every
    container is an invariant of the interpreter *)
-From Prov Require Import WorldProofs.
+From Prov Require Import WorldProofs Jtree Json JsonProofs.
 
 Ltac coh_b :=
   first
@@ -131,6 +131,7 @@ with coh_d :=
     | eapply merge_bundles_coh; [ | eassumption ]; coh_d
     | eapply unify_bundles_coh; [ | eassumption ]; coh_d
     | apply DCoh_attach; [ coh_d | coh_b ]
+    | eapply (fun ft t nd H => proj1 (decode_doc_inv ft t nd H)); eassumption
     | eapply WCoh_get_doc; [ | eassumption ]; coh_w ].
 
 Ltac coh_step :=
@@ -144,7 +145,7 @@ Theorem step_coherent : forall w o, WCoh w -> WCoh (fst (step w o)).
 Proof.
   intros w o W.
   destruct o as [ |c p u|c u|c x|t x|c k i attrs|c f i args other|[c i] attrs|[c i] s e|[c i] v
-                 |c r|c o|t src x order|t|t|c|c x|c cls|a b|a b| ];
+                 |c r|c o|t src x order|t|t|c|c x|c cls|a b|a b|t|jt| ];
     cbn [step]; unfold with_cont; cbn [fst snd].
   all: coh_step.
 Qed.
@@ -362,6 +363,7 @@ Ltac uq_d :=
     | eapply merge_bundles_uniq; [ | eassumption ]; uq_d
     | eapply unify_bundles_uniq; [ | eassumption ]; uq_d
     | cbn [dbundles]; apply uniq_snoc; [ uq_d | assumption ]
+    | eapply (fun ft t nd H => proj2 (decode_doc_inv ft t nd H)); eassumption
     | eapply WUniq_get_doc; [ | eassumption ]; uq_w ]
 with uq_w :=
   match goal with
@@ -375,7 +377,7 @@ Theorem step_uniq : forall w o, WUniq w -> WUniq (fst (step w o)).
 Proof.
   intros w o W.
   destruct o as [ |c p u|c u|c x|t x|c k i attrs|c f i args other|[c i] attrs|[c i] s e|[c i] v
-                 |c r|c o|t src x order|t|t|c|c x|c cls|a b|a b| ];
+                 |c r|c o|t src x order|t|t|c|c x|c cls|a b|a b|t|jt| ];
     cbn [step]; unfold with_cont; cbn [fst snd].
   all: repeat (match goal with
           | |- context [match ?x with _ => _ end] => destruct x eqn:?
